@@ -45,7 +45,15 @@ def r1(ctx):
                         if match(cp, c) is not None:
                             seen.add('n')
                             return 0 if nomoves else 'otherwise'
-                        if match(('bin', 'Eq', cp, ('int', 0, 'usize')), c) is not None:
+                        if match(('bin', 'Eq', cp, ('int', 0, 'usize')), c) is not None or match(('bin', 'Lt', cp, ('int', 1, 'usize')), c) is not None:
+                            seen.add('n')
+                            return as_bool(nomoves, vals)
+                        if match(('bin', 'Ne', cp, ('int', 0, 'usize')), c) is not None or match(('bin', 'Gt', cp, ('int', 0, 'usize')), c) is not None \
+                                or match(('bin', 'Ge', cp, ('int', 1, 'usize')), c) is not None:
+                            seen.add('n')
+                            return as_bool(not nomoves, vals)
+                    for et in empty_tests:
+                        if match(et, c) is not None:
                             seen.add('n')
                             return as_bool(nomoves, vals)
                     if c[0] in ('bbeq', 'bbne') and set(c[1:]) == {('bb0',), ('field', SELF, 'checkers')}:
